@@ -99,9 +99,11 @@ def scenario(ctx, p):
     from robotools.utils import DilutionPlan
     c = ctx.ctx
     if p["part"] == "concrete":
-        case = ctx.choose("case", ["log", "badmode", "stock<xmax", "vmax-length", "linear-known"])
+        case = ctx.choose("case", ["log", "log-deep", "badmode", "stock<xmax", "vmax-length", "linear-known"])
         c["case"] = case
         kw = dict(xmin=0.003, xmax=30.0, R=8, C=12, stock=30.0, mode="log", vmax=1000, min_transfer=20)
+        if case == "log-deep":   # nine orders of magnitude: the most diluted wells hold fractions below 1e-8 of the stock
+            kw = dict(xmin=1.0, xmax=1e9, R=8, C=12, stock=5e9, mode="log", vmax=1000, min_transfer=20)
         if case == "badmode":
             kw["mode"] = "cubic"
         elif case == "stock<xmax":
@@ -138,10 +140,10 @@ def judge(ctx, p, outcome):
     if p["part"] == "concrete":
         case = c["case"]
         if kind == "exc":
-            if case in ("log", "linear-known") or not isinstance(val, ValueError):
+            if case in ("log", "log-deep", "linear-known") or not isinstance(val, ValueError):
                 ctx.violate(f"C14: concrete case {case} raised {type(val).__name__}: {val}")
             return
-        if case not in ("log", "linear-known"):
+        if case not in ("log", "log-deep", "linear-known"):
             ctx.violate(f"C14: invalid request ({case}) returned a plan")
             return
         ctx.reach("concrete:ok")
@@ -259,7 +261,7 @@ def execute(ctx, ns, plan, R, C, tag):
                     comp = lab.get_well_composition(lab.wells[r, col])
                     frac = float(comp.get("stock", 0.0))
                     want = float(x[col][r]) / float(plan_stock(plan, x))
-                    if abs(frac - want) > 1e-9:
+                    if abs(frac - want) > 1e-9 * max(abs(want), 1e-300):   # relative: tiny fractions count as much as large ones
                         ctx.violate("C14: tracked composition after execution differs from the reported concentration", info=dict(dev=dev, labware=lab.name, well=(r, col), tracked=frac, planned=want))
                         return
         if any(float(v) < -1e-9 for v in plate.volumes.flatten()):
